@@ -208,6 +208,24 @@ class LibsModel:
             return const(None)
         if qual == 'weakref.ref':
             return AV(ty='weakref', of=args[0] if args else None, deps=d)
+        if qual == 'functools.reduce' and len(args) >= 2:
+            from .interp import known_items
+            items = known_items(args[1], limit=8)
+            f = args[0]
+            if items is not None and (len(args) > 2 or len(items) >= 1):
+                acc = args[2] if len(args) > 2 else items[0]
+                rest = items if len(args) > 2 else items[1:]
+                for el in rest:
+                    acc = interp.call_value(f, [acc, el], {}, frame, st, node)
+                return acc
+            el = self.iter_item(interp, st, args[1], None, None)
+            init = args[2] if len(args) > 2 else el
+            if f.ty == 'builtin' and f.name in ('min', 'max') and init is not None and el is not None:
+                return self.call_builtin(interp, st, f.name, [init, el], {}, node, frame)
+            if init is not None and el is not None:
+                # one application stands for the fold when the step keeps the kind of the accumulator
+                return join(init, interp.call_value(f, [init, el], {}, frame, st, node))
+            return AV(deps=d)
         if qual == 'functools.partial' and args:
             return AV(ty='partial', target=args[0], pargs=list(args[1:]), pkwargs=dict(kwargs), deps=d)
         if qual.startswith('functools.'):
